@@ -175,6 +175,36 @@ def big_ctx_cases(rng, tag, thorough):
         cases.append(enc_case('%s%d' % (tag, k), r.below(65536), r.below(256), batch, 0, maxb)); k += 1
     return cases
 
+def many_msg_cases(rng, tag, thorough):
+    """COUNTS at the 8-bit (thorough: 16-bit) limits: one frame that aggregates exactly 255 / 256 / 257 (...) small messages of one type
+    (jumbo frame sizes), followed by a packet that does not fit what is left of that frame - one that fits an empty frame (goes whole
+    into the next frame) or one that does not (segmented, starting in a frame of its own); and batches of that many one-frame packets"""
+    cases = []
+    counts = [255, 256, 257] + ([258, 511, 512, 513, 1024, 65535, 65536, 65537] if thorough else [])
+    k = 0
+    for n in counts:
+        for variant in range(3 if n < 2000 else 1):
+            r = rng.fork('%s%d_%d' % (tag, n, variant))
+            ver, mt = r.range(1, 255), r.choice([1, 3])
+            L = r.choice([1, 2, 3])
+            slack = r.choice([0, 5, 17, 20])
+            maxb = 8 + n * (16 + L) + slack
+            cap = maxb - 8
+            small = [plain_packet(r, ver, L, mt) for _ in range(n)]
+            if variant == 0:
+                tail = [plain_packet(r, ver, max(1, slack - 16 + 1 + r.below(8)), mt)]          # fits an empty frame, not the rest
+            elif variant == 1:
+                tail = [plain_packet(r, ver, min(65535, cap - 16 + 1 + r.below(50)), mt)]       # must be segmented
+            else:
+                tail = [plain_packet(r, ver, L, mt), plain_packet(r, ver, 8, 4 - mt)]           # one more small one, then a type change
+            cases.append(enc_case('%s%d' % (tag, k), r.below(65536), r.below(256), small + tail, r.choice([0, 0, 64]), maxb)); k += 1
+    # that many packets, each alone in its frame
+    for n in ([257] if not thorough else [255, 256, 257, 513]):
+        r = rng.fork('%salone%d' % (tag, n))
+        ver, mt = r.range(1, 255), r.choice([1, 3])
+        cases.append(enc_case('%s%d' % (tag, k), r.below(65536), r.below(256), [plain_packet(r, ver, 9, mt) for _ in range(n)] + [plain_packet(r, ver, 40, mt)], 0, 33)); k += 1
+    return cases
+
 def wrap_cases(rng, tag, thorough):
     """one encoder that has already produced 65530..65535 frames (quiet ENCQ calls), then a batch whose segments / aggregated frames
     straddle the 65535 -> 0 wrap of the sequence counter"""
